@@ -123,7 +123,7 @@ func c07Gen(r *driver.Rand, thorough bool) *driver.Plan {
 	p := c07Base(sm, n, genCap(r), fail)
 	p.Fn = r.Intn(60)
 	if sm.stage == "Emit" {
-		p.IntervalMs = driver.Pick(r, 1, 10, 100)
+		p.IntervalMs = driver.Pick(r, 1, 10, 100, 0)
 	}
 	if sm.stage == "Unfold" {
 		p.FnArg = r.Intn(40)
@@ -132,7 +132,7 @@ func c07Gen(r *driver.Rand, thorough bool) *driver.Plan {
 		p.SetX("stderr", 1)
 	}
 	if r.Chance(1, 3) {
-		p.SetX("err_kind", 1+r.Intn(3)) // the failures wrap context.Canceled / DeadlineExceeded
+		p.SetX("err_kind", 1+r.Intn(5)) // the failures wrap context.Canceled / DeadlineExceeded
 	}
 	cons := p.Consumers
 	p.Consumers = nil
